@@ -112,7 +112,7 @@ def plan(tier, seed):
     nsrv = 2 if q else 24
     for kind in ('tcp', 'unix', 'ws'):
         for i in range(nsrv):
-            for style in (('half-close', 'close') if kind != 'ws' else ('close', 'abort')):
+            for style in (('half-close', 'close', 'abort') if kind != 'ws' else ('close', 'abort')):
                 cases.append({'kind': 'server', 'transport': kind, 'style': style,
                               'seed': base + 17000 + i, 'chain': False})
         for i in range(2 if q else 16):
@@ -396,37 +396,38 @@ def drive_reader(r: R, s: Stream, family, cuts, bufsize):
         try:
             p = reader.next_packet()
         except Exception as e:
-            r.bad(exc_key('reader', e, st, raw.pos), f'next_packet raised {e!r} on well-formed data '
-                  f'(bufsize={bufsize}); {st.ctx()}')
+            st.raised(e, raw.pos, out, f'next_packet (bufsize={bufsize})')
             return None
         r.ev('reader_packets')
         r.ev('oracle_evals')
         if p is None:
             st.failed = True
-            r.bad(f'reader/lost/{H.NAME[want[0]]}/{st._plen(k)}',
+            r.bad(st.key('lost', k),
                   f'next_packet returned None before packet {k} (raw pos {raw.pos}); {st.ctx()}')
             return None
         out.append(p)
         if p != want:
-            st.final(out, s.packets[:k + 1])
+            st.failed = True
+            r.bad(st.key('content', k), f'packet {k}: got {bytes(p)[:24].hex()} ({len(p)} B) want '
+                  f'{want[:24].hex()} ({len(want)} B); bufsize={bufsize}; {st.ctx()}')
             return None
         # none late: it must not have pulled a chunk that starts at or after this packet's end
         limit = ends[bisect.bisect_left(ends, s.bounds[k])] if s.bounds[k] <= ends[-1] else ends[-1]
         r.ev('oracle_evals')
         if raw.pos > limit:
             st.failed = True
-            r.bad(f'reader/late/{H.NAME[want[0]]}/{st._plen(k)}',
+            r.bad(st.key('late', k),
                   f'packet {k} (ends at {s.bounds[k]}) returned only after reading up to {raw.pos} '
                   f'(chunk holding its last byte ends at {limit}); bufsize={bufsize}; {st.ctx()}')
             return None
     try:
         p = reader.next_packet()
     except Exception as e:
-        r.bad(f'reader/raised/{type(e).__name__}/at-eof', f'next_packet at clean EOF raised {e!r}; {st.ctx()}')
+        r.bad(st.key(f'raised/{type(e).__name__}', len(s.packets)), f'next_packet at clean EOF raised {e!r}; {st.ctx()}')
         return None
     r.ev('oracle_evals')
     if p is not None:
-        r.bad('reader/extra/at-eof', f'next_packet returned {bytes(p)[:16].hex()} after the last packet; {st.ctx()}')
+        r.bad(st.key('extra', len(s.packets)), f'next_packet returned {bytes(p)[:16].hex()} after the last packet; {st.ctx()}')
         return None
     return out
 
@@ -481,10 +482,10 @@ async def drive_areader(r: R, s: Stream, family, cuts):
         return None
     r.ev('oracle_evals')
     if err and not isinstance(err[0], asyncio.IncompleteReadError):
-        r.bad(f'areader/raised/{type(err[0]).__name__}/at-eof', f'{err[0]!r}; {st.ctx()}')
+        r.bad(st.key(f'raised/{type(err[0]).__name__}', len(s.packets)), f'{err[0]!r} at EOF; {st.ctx()}')
         return None
     if err and isinstance(err[0], asyncio.IncompleteReadError) and err[0].partial:
-        r.bad('areader/extra/at-eof', f'reader consumed {err[0].partial.hex()} beyond the last packet; {st.ctx()}')
+        r.bad(st.key('extra', len(s.packets)), f'reader consumed {err[0].partial.hex()} beyond the last packet; {st.ctx()}')
         return None
     st.final(out)
     return out
@@ -1030,6 +1031,15 @@ class Server:
                 # every byte we sent and our end-of-stream
                 await wall(rd.read(), 'server-side close after EOF')
                 wr.close()
+            elif style == 'abort':
+                # connection reset: the server sees connection_lost(error) and no EOF. Wait until
+                # the server has consumed what was sent, so the reset cannot overtake the data.
+                await wait_tap(start + len(data), f'{self.kind} client bytes before abort')
+                sock = wr.get_extra_info('socket')
+                if self.kind == 'tcp' and sock is not None:
+                    import struct
+                    sock.setsockopt(socket.SOL_SOCKET, socket.SO_LINGER, struct.pack('ii', 1, 0))
+                wr.transport.abort()
             else:
                 wr.close()
             try:
@@ -1137,7 +1147,7 @@ async def server_case_async(case, r: R):
                         'cut_positions': len(s1.data) + 1, 'client2': s2.desc}
         else:
             s3 = short_stream(rng)
-            styles_all = ('half-close', 'close') if kind != 'ws' else ('close', 'abort')
+            styles_all = ('half-close', 'close', 'abort') if kind != 'ws' else ('close', 'abort')
             n = 0
             for _ in range(20):
                 c1 = rng.randint(0, len(s1.data))
